@@ -1,7 +1,613 @@
-from ..model import AnalysisError
+"""C20 - every valid model runs to completion: no crash, no zero-time livelock (partial).
+
+  R1 attribute existence: every `self.X` read in a reachable method exists in the class hierarchy; every
+     attribute read on an element of self.in_edges / self.out_edges exists on *every* Edge subclass unless the
+     access is guarded by a class-name dispatch;
+  R2 interface / dispatch exhaustiveness: every Edge subclass overrides every abstract Edge method that library
+     code calls; every raising `__class__.__name__` dispatch accepts every Edge subclass;
+  R3 progress: every function handed to env.process is a generator and every iteration of its process loop
+     suspends; every other loop of reachable code is a `for` or a `while` with a recognised variant;
+  R4 the documented validations are present (capacity, buffer mode, non-negative delays, non-blocking source
+     with zero inter-arrival time, node without its edges, constant edge index in range);
+  R5 one-shot events: `.succeed()` on an attribute-held event reachable from put/get is guarded or fresh
+     (frozen table, one line of reason per entry);
+  R6 every yielded value is an event;
+  R7 no attribute access on a value that is None on the first iteration of a node process.
+"""
+from __future__ import annotations
+
+import ast
+
+from .. import nodewalk, paths, tables
+from ..model import AnalysisError, Project, reachable, self_attr, walk_no_nested
+from ..report import Result
+from .common import site, src
+
 PROP = 'C20'
 LEVEL = 'other'
 
+EDGE_CALLED_BY_LIBRARY = ('reserve_put', 'reserve_get', 'put', 'get', 'can_put')
+EXTERNAL_OK = {'env', '_env', 'items', 'capacity', 'put_queue', 'get_queue', 'callbacks', 'proc', 'resource'}
 
-def run(p, tier):
-    raise AnalysisError('rule module for C20 not implemented yet (fail closed)')
+# R5: the conveyor-level wake-up events (store-level ones are judged by C01.O8)
+ONE_SHOT_TABLE = {
+    ('edges/continuous_conveyor.py', 'ConveyorBelt', 'put', 'self.item_arrival_event'):
+        ('advisory', 'guarded by `len(belt.items) == 1 and state == IDLE`, re-armed by behaviour before the next arrival can see IDLE; reviewed, no witness'),
+    ('edges/continuous_conveyor.py', 'ConveyorBelt', 'put', 'self.put_events_available'):
+        ('violation', 'D12: two puts in one instant (Machine with work_capacity > 1 finishing together) succeed() the same event twice'),
+    ('edges/continuous_conveyor.py', 'ConveyorBelt', 'get', 'self.get_events_available'):
+        ('advisory', 'a conveyor has one destination and every consumer yields between two gets, so behaviour re-arms in between; reviewed, no witness'),
+}
+
+
+def run(p: Project, tier: str) -> Result:
+    r = Result(PROP)
+    r.explanation = ('Structural crash / livelock freedom: attribute existence over the reachable code, interface and dispatch exhaustiveness over '
+                     'the Edge subclasses, a yield in every process-loop iteration, presence of the documented validations, one-shot event '
+                     'discipline. Absence of all run-time exceptions (D15) and zero-delay livelock (D16) depend on run-time values: not decided.')
+    r.rule('C20.R1', 'attributes read in reachable code exist (self.* and elements of the edge lists)', 200)
+    r.rule('C20.R2', 'abstract Edge methods called by the library are implemented; raising class-name dispatches list every Edge subclass', 20)
+    r.rule('C20.R3', 'process roots are generators whose loop iterations suspend; other loops have a variant', 20)
+    r.rule('C20.R4', 'documented input validations are present', 12)
+    r.rule('C20.R5', 'one-shot conveyor events are succeeded at most once per arming', 3)
+    r.rule('C20.R6', 'yielded values are events', 40)
+    r.rule('C20.R7', 'no attribute access on None on the first iteration of a node process', 4)
+    r.not_decided = ['D15: _get_belt_pattern raises RuntimeError for some valid real-valued timings (run-time values)',
+                     'D16: timer loops with delay 0 (fleet delay, slotted belt delay, blocking source) spin in zero time (run-time values)',
+                     'exceptions raised inside SimPy itself']
+    reach = reachable(p)
+    r.stats['reachable_functions'] = len(reach)
+    r.stats['unreachable_functions'] = sorted(f.key for f in p.all_functions() if f.key not in reach)
+    check_attributes(p, reach, r)
+    check_interface(p, reach, r)
+    check_progress(p, reach, r)
+    check_validations(p, r)
+    check_one_shot(p, r)
+    check_yields(p, reach, r)
+    check_none_deref(p, r)
+    return r
+
+
+# ------------------------------------------------------------------------------------------- R1
+def class_dispatch_guards(fn):
+    """line ranges (first, last) of statements guarded by a test on `X.__class__.__name__`"""
+    out = []
+    for n in walk_no_nested(fn):
+        if isinstance(n, ast.If) and '__class__.__name__' in ast.unparse(n.test):
+            for blk in (n.body, n.orelse):
+                if blk:
+                    out.append((blk[0].lineno, max(getattr(x, 'end_lineno', x.lineno) for x in blk)))
+    return out
+
+
+def check_attributes(p, reach, r):
+    edges = tables.edge_classes(p)
+    nodes = {c.key for c in tables.node_classes(p)}
+    n_self = 0
+    for fi in p.all_functions():
+        if fi.key not in reach or fi.cls is None:
+            continue
+        key_cls = (fi.module, fi.cls)
+        r.analysed_functions.add(fi.key)
+        seen = set()
+        for n in walk_no_nested(fi.node):
+            a = self_attr(n)
+            if a is None or not isinstance(n.ctx, ast.Load) or a in seen:
+                continue
+            seen.add(a)
+            n_self += 1
+            ok = p.has_member(key_cls, a) or a in EXTERNAL_OK
+            if not ok:
+                # subclasses may define it (template-method style); accept if every concrete subclass does
+                subs = p.subclasses(key_cls)
+                ok = bool(subs) and all(p.has_member(s_.key, a) for s_ in subs)
+            key = f'{fi.key}::self.{a}'
+            if ok:
+                r.ok('C20.R1', key, 'defined in the class hierarchy', src(fi.module), n.lineno)
+            else:
+                r.fail('C20.R1', key, f'`self.{a}` is read but never assigned anywhere in {fi.cls} or its bases: AttributeError when this code runs',
+                       src(fi.module), n.lineno)
+    r.stats['self_attribute_reads'] = n_self
+    # attributes read on elements of the node's edge lists
+    for fi in p.all_functions():
+        if fi.key not in reach or fi.cls is None or (fi.module, fi.cls) not in nodes:
+            continue
+        guards = class_dispatch_guards(fi.node)
+        edge_vars = {}
+        for n in ast.walk(fi.node):
+            gens = []
+            if isinstance(n, (ast.ListComp, ast.GeneratorExp)):
+                gens = n.generators
+            for g in gens:
+                if isinstance(g.target, ast.Name) and ast.unparse(g.iter) in ('self.in_edges', 'self.out_edges'):
+                    edge_vars[g.target.id] = (n, ast.unparse(g.iter))
+        for var, (comp, lst) in edge_vars.items():
+            for x in ast.walk(comp):
+                if isinstance(x, ast.Attribute) and isinstance(x.value, ast.Name) and x.value.id == var and isinstance(x.ctx, ast.Load):
+                    if any(a <= x.lineno <= b for a, b in guards):
+                        continue
+                    missing = [e.name + '@' + e.module for e in edges if not (p.has_member(e.key, x.attr))]
+                    key = f'{fi.key}::<{lst} element>.{x.attr}'
+                    if missing:
+                        r.fail('C20.R1', key, f'`{var}.{x.attr}` is read for every element of {lst}, but {missing} have no attribute `{x.attr}`: '
+                                              f'AttributeError as soon as such an edge is connected', src(fi.module), x.lineno)
+                    else:
+                        r.ok('C20.R1', key, 'exists on every Edge subclass', src(fi.module), x.lineno)
+
+
+# ------------------------------------------------------------------------------------------- R2
+def check_interface(p, reach, r):
+    base = tables.find_base(p, 'Edge', 'edges/edge.py')
+    abstract = [name for name, fi in base.methods.items() if any(isinstance(x, ast.Raise) and 'NotImplementedError' in ast.unparse(x) for x in fi.node.body)]
+    edges = tables.edge_classes(p)
+    names = sorted({e.name for e in edges})
+    for e in edges:
+        for m in abstract:
+            own = any(m in c.methods for c in p.mro(e.key) if c.key != base.key)
+            key = f'{e.label}.{m}::implemented'
+            if own:
+                r.ok('C20.R2', key, 'overridden', src(e.module), e.node.lineno)
+            elif m in EDGE_CALLED_BY_LIBRARY:
+                r.fail('C20.R2', key, f'{e.name} does not override Edge.{m}, which node code calls: NotImplementedError at run time', src(e.module), e.node.lineno)
+            else:
+                r.advisories.append(f'C20.R2 {key}: not overridden (no library caller; e.g. Fleet implements get_occupancy instead of occupancy)')
+    # raising class-name dispatches
+    for fi in p.all_functions():
+        if fi.key not in reach:
+            continue
+        for n in walk_no_nested(fi.node):
+            if not (isinstance(n, ast.If) and '__class__.__name__' in ast.unparse(n.test)):
+                continue
+            # only heads of chains
+            parent_is_elif = False
+            for m in walk_no_nested(fi.node):
+                if isinstance(m, ast.If) and len(m.orelse) == 1 and m.orelse[0] is n:
+                    parent_is_elif = True
+            if parent_is_elif:
+                continue
+            accepted = set()
+            subject = None
+            cur = n
+            final_else = None
+            while True:
+                t = cur.test
+                subj, acc = dispatch_names(t)
+                if subj is None:
+                    break
+                subject = subject or subj
+                accepted |= acc
+                if len(cur.orelse) == 1 and isinstance(cur.orelse[0], ast.If) and '__class__.__name__' in ast.unparse(cur.orelse[0].test):
+                    cur = cur.orelse[0]
+                    continue
+                final_else = cur.orelse
+                break
+            if subject is None or not final_else:
+                continue
+            if not any(isinstance(x, ast.Raise) for s_ in final_else for x in ast.walk(s_)):
+                continue
+            key = site(fi, n, f'dispatch:{subject}', same=lambda x: isinstance(x, ast.If) and '__class__.__name__' in ast.unparse(x.test))
+            missing = [nm for nm in names if nm not in accepted]
+            if missing:
+                r.fail('C20.R2', key, f'dispatch on `{subject}.__class__.__name__` accepts {sorted(accepted)} and raises otherwise: '
+                                      f'{missing} edge(s) connected here crash the node with "Unsupported edge type"', src(fi.module), n.lineno)
+            else:
+                r.ok('C20.R2', key, f'accepts {sorted(accepted)}', src(fi.module), n.lineno)
+
+
+def dispatch_names(t):
+    """(subject text, accepted class names) of a test on X.__class__.__name__ (==, in [..], or-chains)"""
+    if isinstance(t, ast.BoolOp) and isinstance(t.op, ast.Or):
+        subj = None
+        acc = set()
+        for v in t.values:
+            s_, a = dispatch_names(v)
+            if s_ is None:
+                return None, set()
+            subj = subj or s_
+            acc |= a
+        return subj, acc
+    if isinstance(t, ast.Compare) and len(t.ops) == 1 and isinstance(t.left, ast.Attribute) and t.left.attr == '__name__':
+        subj = ast.unparse(t.left.value.value) if isinstance(t.left.value, ast.Attribute) else None
+        c = t.comparators[0]
+        if isinstance(t.ops[0], ast.Eq) and isinstance(c, ast.Constant):
+            return subj, {c.value}
+        if isinstance(t.ops[0], ast.In) and isinstance(c, (ast.List, ast.Tuple, ast.Set)):
+            return subj, {e.value for e in c.elts if isinstance(e, ast.Constant)}
+    return None, set()
+
+
+# ------------------------------------------------------------------------------------------- R3
+def spawned_targets(p, reach):
+    """(spawner FuncInfo, Call node, target FuncInfo|None) for every env.process(<call>) in reachable code"""
+    out = []
+    for fi in p.all_functions():
+        if fi.key not in reach:
+            continue
+        for n in walk_no_nested(fi.node):
+            if isinstance(n, ast.Call) and isinstance(n.func, ast.Attribute) and n.func.attr == 'process' and n.args and isinstance(n.args[0], ast.Call):
+                inner = n.args[0]
+                tgt = None
+                if self_attr(inner.func) and fi.cls:
+                    tgt = p.method((fi.module, fi.cls), inner.func.attr)
+                out.append((fi, n, tgt))
+    return out
+
+
+def loop_has_variant(fi, loop) -> (bool, str):
+    """recognised termination arguments for a `while` loop in non-process code / inner loops"""
+    t = loop.test
+    tt = ast.unparse(t).replace(' ', '')
+    body_txt = ast.unparse(ast.Module(body=loop.body, type_ignores=[])).replace(' ', '')
+    # (a) idx < len(L): every iteration either increments idx, pops from L, or breaks  (service loops)
+    if isinstance(t, ast.Compare) and isinstance(t.left, ast.Name) and tt.startswith(f'{t.left.id}<len('):
+        v = t.left.id
+        if f'{v}+=1' in body_txt and ('.pop(' in body_txt):
+            return True, f'|queue| − {v} decreases (checked path-wise by C04.R3)'
+    # (b) len(X) > 0 with X.pop in the body on every iteration
+    if tt.startswith('len(') and (tt.endswith(')>0') or tt.endswith(')!=0')):
+        x = tt[4:tt.rindex(')')]
+        first = loop.body[0] if loop.body else None
+        if f'{x}.pop(' in body_txt:
+            # the pop must not be conditional: it is a top-level statement of the body
+            for s_ in loop.body:
+                if not isinstance(s_, (ast.If, ast.For, ast.While, ast.Try)) and f'{x}.pop(' in ast.unparse(s_).replace(' ', ''):
+                    return True, f'len({x}) decreases on every iteration'
+    # (c) while True: v -= 1; if v < 0: raise; ... break
+    if isinstance(t, ast.Constant) and t.value is True:
+        decs = [s_ for s_ in loop.body if isinstance(s_, ast.AugAssign) and isinstance(s_.op, ast.Sub) and isinstance(s_.target, ast.Name)]
+        for d in decs:
+            v = d.target.id
+            guard = any(isinstance(s_, ast.If) and ast.unparse(s_.test).replace(' ', '') == f'{v}<0' and any(isinstance(x, ast.Raise) for x in s_.body)
+                        for s_ in loop.body)
+            if guard:
+                return True, f'{v} strictly decreases and the loop raises below 0'
+    # (d) while remaining > 0: with the body assigning remaining = 0 / decreasing it on every path that continues
+    if isinstance(t, ast.Compare) and isinstance(t.left, ast.Name) and tt == f'{t.left.id}>0':
+        v = t.left.id
+        if f'{v}=0' in body_txt or f'{v}-=' in body_txt:
+            return True, f'{v} is reset to 0 or decreased by the elapsed time in every iteration (and each iteration suspends)'
+    return False, f'`while {ast.unparse(t)}`: no recognised variant'
+
+
+def check_progress(p, reach, r):
+    # (a) spawned functions are generators
+    for fi, call, tgt in spawned_targets(p, reach):
+        key = site(fi, call, 'spawn')
+        if tgt is None:
+            r.ok('C20.R3', key, 'spawn of a non-self callable (not resolved; its own class is checked where defined)', src(fi.module), call.lineno)
+            continue
+        if tgt.is_generator:
+            r.ok('C20.R3', key, f'{tgt.qual} is a generator', src(fi.module), call.lineno)
+        else:
+            r.fail('C20.R3', key, f'env.process() is given `{tgt.qual}(...)`, which is not a generator function: ValueError at run time '
+                                  f'(or an endless plain loop inside the call)', src(fi.module), call.lineno)
+    # (b) every iteration of a process loop suspends: path based on all generator roots
+    roots = []
+    for w in nodewalk.walks(p):
+        for root, ps in w.roots.items():
+            roots.append((w.root_funcs[root], ps))
+    from .. import storewalk
+    for w in storewalk.walks(p, assume_inv=('I1',)):
+        for root in w.store.process_roots:
+            if w.root_funcs[root].is_generator:
+                roots.append((w.root_funcs[root], w.roots[root]))
+    for ci in tables.edge_classes(p):
+        b = ci.methods.get('behaviour')
+        if b is not None and b.is_generator and b.key in reach:
+            ex = paths.Explorer(p, ci.key, tracked=set(), atomic=set(p.methods(ci.key)), unroll=1, track_attrs=True, interrupt_edges=False)
+            roots.append((b, ex.paths(b)))
+    seen_roots = set()
+    for fi, ps in roots:
+        if fi.key in seen_roots:
+            continue
+        seen_roots.add(fi.key)
+        r.analysed_functions.add(fi.key)
+        r.paths += len(ps)
+        has_loop = any(pa.status == 'backedge' for pa in ps)
+        if not has_loop:
+            continue
+        key = f'{fi.key}::process-loop-suspends'
+        bad = None
+        for pa in ps:
+            if pa.status != 'backedge':
+                continue
+            evs = pa.events
+            heads = [i for i, e in enumerate(evs) if e.kind == 'loophead' and e.fi.key == fi.key]
+            start = heads[0] if heads else 0
+            if not any(e.kind == 'yield' for e in evs[start:]):
+                bad = pa
+        if bad:
+            r.fail('C20.R3', key, 'an iteration of the process loop reaches the back-edge without suspending: the process spins in zero simulated time '
+                                  'and run(until=T) never returns', src(fi.module), fi.node.lineno, bad.describe())
+        else:
+            r.ok('C20.R3', key, 'every iteration suspends at least once', src(fi.module), fi.node.lineno)
+    # (c) while loops of reachable code
+    for fi in p.all_functions():
+        if fi.key not in reach:
+            continue
+        for n in walk_no_nested(fi.node):
+            if not isinstance(n, ast.While):
+                continue
+            is_proc_loop = isinstance(n.test, ast.Constant) and n.test.value is True and fi.is_generator \
+                and any(isinstance(x, (ast.Yield, ast.YieldFrom)) for x in ast.walk(n)) and fi.key in seen_roots
+            key = site(fi, n, 'while', same=lambda x: isinstance(x, ast.While))
+            if is_proc_loop:
+                continue
+            if isinstance(n.test, ast.Constant) and n.test.value is True and fi.is_generator and any(isinstance(x, ast.Yield) for x in ast.walk(n)):
+                # a generator with an infinite yielding loop that is not a simulation process (edge selectors): lazily consumed, fine
+                r.ok('C20.R3', key, 'infinite generator consumed one value at a time', src(fi.module), n.lineno)
+                continue
+            ok, why = loop_has_variant(fi, n)
+            if ok:
+                r.ok('C20.R3', key, why, src(fi.module), n.lineno)
+            else:
+                r.fail('C20.R3', key, f'{why}: the loop can run for ever without suspending', src(fi.module), n.lineno)
+
+
+# ------------------------------------------------------------------------------------------- R4
+def find_raise_under(fn, pred):
+    """a `raise`/assert whose governing condition satisfies pred(text)"""
+    for n in walk_no_nested(fn):
+        if isinstance(n, ast.If) and any(isinstance(x, ast.Raise) for x in n.body) and pred(ast.unparse(n.test).replace(' ', '')):
+            return n
+        if isinstance(n, ast.Assert) and pred('assert:' + ast.unparse(n.test).replace(' ', '')):
+            return n
+    return None
+
+
+def check_validations(p, r):
+    def need(cls_rel, cls, meth, label, pred, what):
+        ci = p.cls(cls_rel, cls)
+        fi = ci.methods.get(meth)
+        key = f'{cls_rel}::{cls}.{meth}::validates:{label}'
+        if fi is None:
+            r.fail('C20.R4', key, f'{meth} missing', src(cls_rel), ci.node.lineno)
+            return
+        r.analysed_functions.add(fi.key)
+        hit = find_raise_under(fi.node, pred)
+        if hit is not None:
+            r.ok('C20.R4', key, what, src(cls_rel), hit.lineno)
+        else:
+            r.fail('C20.R4', key, f'validation removed: {what} - the invalid configuration is silently simulated', src(cls_rel), fi.node.lineno)
+    need('edges/edge.py', 'Edge', '__init__', 'capacity', lambda t: 'isinstance(self.capacity,int)' in t and 'self.capacity<=0' in t and t.startswith('not'),
+         'capacity must be a positive int')
+    need('edges/buffer.py', 'Buffer', '__init__', 'mode', lambda t: 'self.modenotin' in t and 'FIFO' in t and 'LIFO' in t, 'mode must be FIFO or LIFO')
+    need('edges/edge.py', 'Edge', 'get_delay', 'delay>=0', lambda t: t in ('assert:val>=0', 'val<0'), 'drawn delay must be non-negative')
+    need('nodes/node.py', 'Node', 'get_delay', 'delay>=0', lambda t: t in ('assert:val>=0', 'val<0'), 'drawn delay must be non-negative')
+    need('nodes/source.py', 'Source', '__init__', 'nonblocking-zero-interarrival',
+         lambda t: 'inter_arrival_time==0' in t and 'notself.blocking' in t and 'or' not in t.replace('inter_arrival_time', ''),
+         'a non-blocking source needs a non-zero inter-arrival time')
+    need('nodes/node.py', 'Node', '__init__', 'setup-time-type', lambda t: False, '') if False else None
+    for cls_rel, cls, ins, outs in (('nodes/source.py', 'Source', 'none', 'some'), ('nodes/sink.py', 'Sink', 'some', 'none'),
+                                    ('nodes/machine.py', 'Machine', 'some', 'some'), ('nodes/splitter.py', 'Splitter', 'some', 'some'),
+                                    ('nodes/combiner.py', 'Combiner', 'some', 'some')):
+        for side, want in (('in_edges', ins), ('out_edges', outs)):
+            if want == 'some':
+                need(cls_rel, cls, 'behaviour', f'has-{side}', lambda t, s_=side: t.startswith('assert:') and f'self.{s_}isnotNone' in t and f'len(self.{s_})>=1' in t,
+                     f'the node must have at least one of its {side}')
+            else:
+                need(cls_rel, cls, 'behaviour', f'no-{side}', lambda t, s_=side: t.startswith('assert:') and f'self.{s_}isNone' in t,
+                     f'the node must not have {side}')
+    for cls_rel, cls, sides in (('nodes/source.py', 'Source', ('out',)), ('nodes/machine.py', 'Machine', ('in', 'out')),
+                                ('nodes/splitter.py', 'Splitter', ('in', 'out')), ('nodes/combiner.py', 'Combiner', ('out',))):
+        for sd in sides:
+            need(cls_rel, cls, 'reset', f'constant-{sd}-index',
+                 lambda t, s_=sd: t.startswith('assert:') and f'0<=self.{s_}_edge_selection<len(self.{s_}_edges)' in t,
+                 f'a constant {sd}_edge_selection must be a valid index')
+
+
+# ------------------------------------------------------------------------------------------- R5
+def check_one_shot(p, r):
+    for ci in tables.edge_classes(p):
+        if ci.name != 'ConveyorBelt':
+            continue
+        for mname in ('put', 'get'):
+            fi = ci.methods.get(mname)
+            if fi is None:
+                continue
+            r.analysed_functions.add(fi.key)
+            ex = paths.Explorer(p, ci.key, tracked=set(), atomic=set(p.methods(ci.key)), proto={'put', 'get', 'handle_new_item_during_interruption'},
+                                unroll=1, track_attrs=True)
+            sites = {}
+            for pa in ex.paths(fi):
+                if pa.raises:
+                    continue
+                evs = pa.events
+                for i, e in enumerate(evs):
+                    if e.kind == 'succeed' and e.target.startswith('self.'):
+                        guarded = False
+                        for b in reversed(evs[:i]):
+                            if b.kind == 'succeed' and b.target == e.target:
+                                break           # an earlier succeed consumed the guard / the fresh event
+                            if b.kind == 'cond' and not b.d.get('synthetic') and b.text == f'{e.target}.triggered' and b.polarity is False:
+                                guarded = True
+                                break
+                            if b.kind == 'setattr' and b.target == e.target and b.value[0] == 'newevent':
+                                guarded = True
+                                break
+                        rec = sites.setdefault(e.target, {'ok': True, 'e': e, 'pa': pa})
+                        if not guarded:
+                            rec.update(ok=False, pa=pa)
+            for tgt, rec in sorted(sites.items()):
+                e = rec['e']
+                key = f'{fi.key}::succeed({tgt})'
+                if rec['ok']:
+                    r.ok('C20.R5', key, 'guarded by `not triggered` or fresh', src(fi.module), e.line)
+                    continue
+                entry = ONE_SHOT_TABLE.get((ci.module, ci.name, mname, tgt))
+                if entry and entry[0] == 'advisory':
+                    r.fail('C20.R5', key, f'unguarded `{tgt}.succeed()`: {entry[1]}', src(fi.module), e.line, advisory=True)
+                else:
+                    r.fail('C20.R5', key, f'`{tgt}.succeed()` is reachable twice before the event is re-armed (no `not {tgt}.triggered` guard, no fresh event): '
+                                          f'two calls of {mname}() in one instant raise RuntimeError("already triggered")' + (f' [{entry[1]}]' if entry else ''),
+                           src(fi.module), e.line, rec['pa'].describe())
+
+
+# ------------------------------------------------------------------------------------------- R6
+def check_yields(p, reach, r):
+    for fi in p.all_functions():
+        if fi.key not in reach or not fi.is_generator:
+            continue
+        if fi.cls is None:
+            continue        # edge-selector generators yield integers to next(), they are not simulation processes
+        for n in walk_no_nested(fi.node):
+            if not isinstance(n, ast.Yield):
+                continue
+            key = site(fi, n, 'yield-value', same=lambda x: isinstance(x, ast.Yield))
+            v = n.value
+            ok, why = yield_value_is_event(fi, v)
+            if ok:
+                r.ok('C20.R6', key, why, src(fi.module), n.lineno)
+            else:
+                r.fail('C20.R6', key, f'`yield {ast.unparse(v) if v is not None else ""}`: {why}', src(fi.module), n.lineno)
+
+
+EVENT_MAKERS = ('timeout', 'any_of', 'all_of', 'process', 'event', 'request', 'release', 'reserve_put', 'reserve_get')
+
+
+def yield_value_is_event(fi, v):
+    if v is None:
+        return False, 'a bare yield hands None to the kernel (not an event)'
+    if isinstance(v, ast.Call) and isinstance(v.func, ast.Attribute) and v.func.attr in EVENT_MAKERS:
+        return True, f'{v.func.attr}(...) returns an event'
+    if isinstance(v, ast.Call) and isinstance(v.func, ast.Attribute) and v.func.attr in ('put', 'get'):
+        return False, 'the result of put()/get() is not an event'
+    if isinstance(v, (ast.Name, ast.Attribute)):
+        name = ast.unparse(v)
+        # find what is assigned to this name in the function
+        vals = []
+        for n in walk_no_nested(fi.node):
+            if isinstance(n, ast.Assign) and any(ast.unparse(t) == name for t in n.targets):
+                vals.append(n.value)
+        for val in vals:
+            if isinstance(val, ast.Call) and isinstance(val.func, ast.Attribute) and val.func.attr in EVENT_MAKERS:
+                continue
+            if isinstance(val, ast.Call) and isinstance(val.func, ast.Attribute) and val.func.attr in ('put', 'get'):
+                # `if isinstance(x, Process): yield x` - guarded legacy branch
+                continue
+            if isinstance(val, ast.Name):
+                continue
+            if isinstance(val, ast.Constant) and val.value is None:
+                continue          # resetting the holder after use
+            return False, f'`{name}` is assigned `{ast.unparse(val)[:50]}`, which is not an event'
+        if isinstance(v, ast.Attribute) and self_attr(v):
+            return True, 'event held in an attribute'
+        return True, 'event variable'
+    return False, 'not an event expression'
+
+
+# ------------------------------------------------------------------------------------------- R7
+def check_none_deref(p, r):
+    """First iteration of every node `behaviour`: attributes initialised to None in __init__ and not assigned on the path must not be dereferenced."""
+    for w in nodewalk.walks(p):
+        fi = w.root_funcs.get('behaviour')
+        if fi is None:
+            continue
+        init = w.ci.methods.get('__init__')
+        none_attrs = set()
+        if init is not None:
+            for n in walk_no_nested(init.node):
+                if isinstance(n, ast.Assign) and isinstance(n.value, ast.Constant) and n.value.value is None:
+                    for t in n.targets:
+                        if self_attr(t):
+                            none_attrs.add(self_attr(t))
+        # attributes that the loop itself resets to None at the end of an iteration behave the same on later iterations
+        if not none_attrs:
+            continue
+        key = f'{fi.key}::none-dereference'
+        bad = None
+        for pa in w.roots['behaviour']:
+            if pa.raises or pa.status == 'loopcut':
+                continue
+            assigned = {}
+            # walk the statements of the path in order: we only have events, so use setattr events + source lines
+            for e in pa.events:
+                if e.kind == 'setattr' and e.on_self:
+                    assigned[e.attr] = e.value
+            # find derefs in the source lines covered by this path: approximate by scanning f-strings / attribute chains in
+            # statements whose line lies between two consecutive events of the path
+        # static scan: deref of self.X.<attr> for X in none_attrs at a statement that is not dominated by an assignment to self.X
+        # on some path (zero-trip loops).  Implemented on the AST with a small must-assign analysis.
+        bad = must_assign_scan(fi, none_attrs)
+        if bad:
+            attr, line, why = bad
+            r.fail('C20.R7', key, f'`self.{attr}.…` is read at line {line} but `self.{attr}` is still None when {why}: AttributeError', src(fi.module), line)
+        else:
+            r.ok('C20.R7', key, f'attributes initialised to None ({", ".join(sorted(none_attrs))}) are assigned before every dereference', src(fi.module), fi.node.lineno)
+
+
+def must_assign_scan(fi, none_attrs):
+    """Walk the body of the process loop; `assigned` = attributes definitely assigned a non-None value so far in this iteration.
+    A `while`/`for` body contributes nothing (zero-trip); an `if` contributes the intersection of its branches (a raising branch is ignored)."""
+    loops = [n for n in fi.node.body if isinstance(n, ast.While)]
+    if not loops:
+        return None
+
+    def derefs(node):
+        out = []
+        for x in ast.walk(node):
+            if isinstance(x, ast.Attribute) and isinstance(x.value, ast.Attribute) and self_attr(x.value) in none_attrs and isinstance(x.ctx, ast.Load):
+                out.append((self_attr(x.value), x.lineno))
+        return out
+
+    def terminates(blk):
+        return bool(blk) and isinstance(blk[-1], (ast.Raise, ast.Return, ast.Continue, ast.Break))
+
+    def walk(stmts, assigned):
+        for s_ in stmts:
+            if isinstance(s_, ast.If):
+                # test may dereference
+                for a, ln in derefs(s_.test):
+                    if a not in assigned:
+                        # `if self.X is not None:` style guards are comparisons, not dereferences
+                        return (a, ln, 'the test is evaluated')
+                # `if self.X is None: raise` establishes non-None afterwards
+                t = ast.unparse(s_.test).replace(' ', '')
+                a1 = set(assigned)
+                a2 = set(assigned)
+                for a in none_attrs:
+                    if t == f'self.{a}isnotNone':
+                        a1.add(a)
+                    if t == f'self.{a}isNone':
+                        a2.add(a)
+                r1 = walk(s_.body, a1)
+                if r1 and isinstance(r1, tuple):
+                    return r1
+                r2 = walk(s_.orelse, a2)
+                if r2 and isinstance(r2, tuple):
+                    return r2
+                b1 = a1 if not terminates(s_.body) else None
+                b2 = a2 if not terminates(s_.orelse) else None
+                if b1 is not None and b2 is not None:
+                    assigned &= (b1 & b2) | assigned
+                    assigned |= (b1 & b2)
+                elif b1 is not None:
+                    assigned |= b1
+                elif b2 is not None:
+                    assigned |= b2
+                continue
+            if isinstance(s_, (ast.While, ast.For)):
+                inner = set(assigned)
+                res = walk(s_.body, inner)
+                if res and isinstance(res, tuple):
+                    return res
+                continue          # zero-trip: nothing is definitely assigned
+            if isinstance(s_, ast.Try):
+                res = walk(s_.body, assigned)
+                if res and isinstance(res, tuple):
+                    return res
+                continue
+            for a, ln in derefs(s_):
+                if a not in assigned:
+                    return (a, ln, 'this statement runs on a path where no earlier statement of the iteration assigned it (a loop that may run zero times does not count)')
+            if isinstance(s_, ast.Assign):
+                for t in s_.targets:
+                    a = self_attr(t)
+                    if a in none_attrs:
+                        if isinstance(s_.value, ast.Constant) and s_.value.value is None:
+                            assigned.discard(a)
+                        else:
+                            assigned.add(a)
+        return None
+    res = walk(loops[0].body, set())
+    return res
